@@ -1015,3 +1015,61 @@ Proof.
   - apply (there_and_back_float_temperature ua ub ta fa tb fb v Ca Cb
              (table_inverse_pair _ _ _ Ia Ca) (table_inverse_pair _ _ _ Ib Cb) Fv Hv).
 Qed.
+
+(* ================================================================ the range hypotheses of UnitsFloat.there_and_back_float_linear
+   follow from the decidable condition, so that theorem (four factors (1+e), |e| <= 2^-53) holds for every pair of
+   linear units of one category of the table and every valid v with 2^-40 <= |v| <= 2^40 *)
+Lemma linear_in_ranges ua ub la lb v w :
+  u_conv ua = Linear la -> u_conv ub = Linear lb ->
+  let ca := num_of_bits (l_bits la) in
+  let cb := num_of_bits (l_bits lb) in
+  fin ca -> fin cb -> fin v -> win (fst w) (snd w) (Rv v) -> tab_ok ua ub w = true ->
+  let r1 := nmul v ca in
+  let r2 := through_base fl v ua ub in
+  let r3 := nmul r2 cb in
+  in_range (Rv v * Rv ca) /\ in_range (Rv r1 / Rv cb) /\ in_range (Rv r2 * Rv cb) /\ in_range (Rv r3 / Rv ca).
+Proof.
+  intros Ha Hb ca cb Fa Fb Fv Wv OK r1 r2 r3. destruct w as [a b]. cbn [fst snd] in Wv.
+  assert (Ka : klo ua = lo ca) by (unfold klo, cnum, coef_of; rewrite Ha; reflexivity).
+  assert (Kb : klo ub = lo cb) by (unfold klo, cnum, coef_of; rewrite Hb; reflexivity).
+  unfold tab_ok, tabS_ok, tbS_ok, tbS_win, stepS_to, stepS_from, usum in OK. rewrite Ha, Hb, Ka, Kb in OK.
+  cbn [fst snd Z.eqb] in OK.
+  apply andb_prop in OK. destruct OK as [OK O34]. apply andb_prop in OK. destruct OK as [O1 O2].
+  apply andb_prop in O34. destruct O34 as [O3 O4].
+  apply wok_wokZ in O1, O2, O3, O4. cbn [fst snd] in O1, O2, O3, O4.
+  pose proof (lo_win _ Fa) as Wa. pose proof (lo_win _ Fb) as Wb.
+  pose proof (st_init v a b Fv Wv) as S0.
+  pose proof (st_mulc v _ _ a b ca (lo ca) S0 Fa Wa O1) as S1. fold r1 in S1.
+  pose proof (st_divc r1 _ _ _ _ cb (lo cb) S1 Fb Wb O2) as S2.
+  assert (E2 : r2 = ndiv r1 cb).
+  { unfold r2, through_base, convert_from_base, convert_to_base. rewrite Ha, Hb. reflexivity. }
+  rewrite <- E2 in S2.
+  pose proof (st_mulc r2 _ _ _ _ cb (lo cb) S2 Fb Wb O3) as S3. fold r3 in S3.
+  destruct S1 as [_ [W1 _]]. destruct S2 as [_ [W2 _]]. destruct S3 as [_ [W3 _]].
+  split; [apply (win_in_range _ _ _ O1); apply win_mul; assumption|].
+  split; [apply (win_in_range _ _ _ O2); apply win_div; assumption|].
+  split; [apply (win_in_range _ _ _ O3); apply win_mul; assumption|].
+  apply (win_in_range _ _ _ O4); apply win_div; assumption.
+Qed.
+
+Theorem there_and_back_float_linear_table : forall ua ub la lb v,
+  In ua all_units -> In ub all_units -> u_cat ua = u_cat ub ->
+  u_conv ua = Linear la -> u_conv ub = Linear lb ->
+  fin v -> win (- Kv) Kv (Rv v) ->
+  let r2 := through_base fl v ua ub in
+  let r4 := through_base fl r2 ub ua in
+  exists e1 e2 e3 e4,
+    Rabs e1 <= u53 /\ Rabs e2 <= u53 /\ Rabs e3 <= u53 /\ Rabs e4 <= u53 /\
+    Rv r4 = Rv v * ((1 + e1) * (1 + e2) * (1 + e3) * (1 + e4)) /\
+    Rabs (Rv r4 - Rv v) <= ((1 + u53) * (1 + u53) * (1 + u53) * (1 + u53) - 1) * Rabs (Rv v).
+Proof.
+  intros ua ub la lb v Ia Ib C Ha Hb Fv Wv.
+  assert (La : is_lr ua = true) by (unfold is_lr; rewrite Ha; reflexivity).
+  assert (Lb : is_lr ub = true) by (unfold is_lr; rewrite Hb; reflexivity).
+  destruct (table_pair ua ub Ia Ib C La Lb) as [Fa [Fb OK]].
+  assert (Ea : cnum ua = num_of_bits (l_bits la)) by (unfold cnum, coef_of; rewrite Ha; reflexivity).
+  assert (Eb : cnum ub = num_of_bits (l_bits lb)) by (unfold cnum, coef_of; rewrite Hb; reflexivity).
+  rewrite Ea in Fa. rewrite Eb in Fb.
+  destruct (linear_in_ranges ua ub la lb v (- Kv, Kv)%Z Ha Hb Fa Fb Fv Wv OK) as [R1 [R2 [R3 R4]]].
+  exact (there_and_back_float_linear ua ub la lb v Ha Hb Fv Fa Fb R1 R2 R3 R4).
+Qed.
